@@ -156,9 +156,18 @@ func protoCheck(s string, t *doc.Tree, ctx int, extra int) (res protoResult) {
 	if err != nil {
 		return fail("compile-count", "compiles", err.Error())
 	}
-	cv := ce.Evaluate(doc.NewNav(t, ctx, b))
-	if f, ok := cv.(float64); !ok || f != float64(len(seq)) {
-		return fail("count", fmt.Sprint(len(seq)), fmt.Sprint(cv))
+	// (asked twice of the same compiled expression: the relation is not a
+	// first-use-only one)
+	for k := 0; k < 2; k++ {
+		cv := ce.Evaluate(doc.NewNav(t, ctx, b))
+		if f, ok := cv.(float64); !ok || f != float64(len(seq)) {
+			return fail(ternary(k == 0, "count", "count-second-evaluation"), fmt.Sprint(len(seq)), fmt.Sprint(cv))
+		}
+	}
+	if v2, ok := e.Evaluate(doc.NewNav(t, ctx, b)).(*xpath.NodeIterator); !ok {
+		return fail("evaluate-type-second-evaluation", "*NodeIterator", "other")
+	} else if seq3 := eng.Drain(v2, limit); !eng.EqInts(seq, seq3) {
+		return fail("evaluate-vs-select-second-evaluation", fmt.Sprint(seq), fmt.Sprint(seq3))
 	}
 	// reverse(E) = reversed sequence
 	re, err := xpath.Compile("reverse(" + s + ")")
@@ -398,6 +407,22 @@ func c12Spaces(tier string) []*explore.Space {
 	}
 	for _, e := range stratum(u2, 11) {
 		wrapped = append(wrapped, gen.F("reverse", e))
+	}
+	// positional filters on a parenthesised expression / stacked on a boolean
+	// predicate: node-set expressions whose evaluation keeps counters
+	for i, e := range s1 {
+		if i%4 == 0 {
+			wrapped = append(wrapped, &gen.Filter{Primary: &gen.Group{E: e}, Preds: []gen.Expr{gen.N(2)}}, &gen.Filter{Primary: &gen.Group{E: e}, Preds: []gen.Expr{gen.F("last")}})
+			// ((E)[p][q] is not used: the engine's FilterExpr takes one predicate and the
+			// top-level parser ignores what follows — outside every listed property)
+		}
+	}
+	for _, st := range []gen.Step{gen.Ch("*"), gen.Ch("a"), gen.Ch("node()")} {
+		for _, bp := range []gen.Expr{gen.F("true"), relPath(gen.At("*")), gen.F("not", relPath(gen.Ch("*")))} {
+			for _, pp := range []gen.Expr{gen.N(1), gen.N(2), gen.F("last")} {
+				wrapped = append(wrapped, relPath(withPred(st, bp, pp)), relPath(gen.Ch("*"), withPred(st, bp, pp)))
+			}
+		}
 	}
 	t2 := func() []*doc.Tree { return uniT(2) }
 	t3 := func() []*doc.Tree { return uniT(3) }
